@@ -35,7 +35,7 @@ Fillers == {
     "S$ < \"b\"", "1 < S$", "#1", "7 MOD .4", "7 MOD 0", ".4", "1 / .0000001", "2 ^ 2", "1 \\ 2", "N% AND",
     "Arr(1 TO 2)", "1 TO", "(1 TO 2)", "N% * 99999", "32767 + N%", "8", "80", "25", "F$", "A", "Z", "X",
     "Qq", "Pq%", "\"T.TXT\"", "\"##\"", "", " ", ":", "'", ",", ";", "=", "1 TO 2", "-", "- -1", "(N%",
-    "N%)", "\"abc\"+Chr$(200)", "Chr$(200)+\"abcd\"", "String$(5,200)", "\"aé\"", "Pa() AS MyType", "Pr AS MyType", "Pi() AS INTEGER", "Ps$()", "Pn AS LONG", "Pu AS Undef", "Pq%()", "QQ", "A.B$", "Rec.X%", "Undef.X$", "Rec.S$", "&O8", "&o17", "2#" }
+    "N%)", "\"abc\"+Chr$(200)", "Chr$(200)+\"abcd\"", "String$(5,200)", "\"aé\"", "Pa() AS MyType", "Pr AS MyType", "Pi() AS INTEGER", "Ps$()", "Pn AS LONG", "Pu AS Undef", "Pq%()", "Qf", "Qf%", "Qf!", "Qg", "Qg$", "QQ", "A.B$", "Rec.X%", "Undef.X$", "Rec.S$", "&O8", "&o17", "2#" }
 
 Core == {
     "N%", "S$", "Arr(1)", "Arr", "Rec.X", "RecArr(1).X", "Rec", "Undef", "Undef(1)", "MyConst", "MySub",
@@ -60,7 +60,7 @@ TwoSlot == {
     "select", "case-range", "input2", "field", "lset", "name", "poke", "locate", "color", "width",
     "view-print", "defint", "member-assign", "elem-assign", "elem-member-assign", "elem-print",
     "elem-member-print", "two-subscripts", "swap-assign", "nested", "sub-decl", "function-decl", "declare",
-    "type-decl", "type-two", "field-two" }
+    "type-decl", "type-two", "field-two", "function-assign", "function-assign-s" }
 
 VARIABLES t, a, b
 vars == <<t, a, b>>
